@@ -626,6 +626,11 @@ def ob_valid_witnesses(pid="C05", label="C05.f", big=False):
             cases.append(("line comment of %d characters" % n, cat(lit("#"), rep(rng("a", "z"), n), nl, ident, lit("()"), nl)))
         for n in sizes["ncmds"]:
             cases.append(("%d commands" % n, rep(cat(ident, lit("("), word, lit(")"), nl), n)))
+        # characters that some Python text functions take for line breaks (str.splitlines) but that are ordinary text to CMake
+        for cp in (0x0B, 0x0C, 0x1C, 0x1D, 0x1E, 0x85, 0x2028, 0x2029):
+            odd = chars(chr(cp))
+            cases.append(("U+%04X inside a line comment" % cp, cat(lit("# "), word, odd, word, lit(" "), word, nl, ident, lit("()"), nl)))
+            cases.append(("U+%04X inside a quoted and an unquoted argument" % cp, cat(ident, lit('("'), word, odd, word, lit('" '), word, odd, word, lit(")"), nl)))
         tmp = os.path.join(work, "valid")
         shutil.rmtree(tmp, ignore_errors=True)
         os.makedirs(tmp)
@@ -658,7 +663,7 @@ def ob_valid_witnesses(pid="C05", label="C05.f", big=False):
     return vf.FN("%s valid-file witnesses with large sizes (deep parentheses, high bracket levels, many arguments/commands, long lines) are processed to completion" % label, fn,
                  engine="z3 picks members of size-constrained valid-file languages; each is replayed through the real CLI (witness replay, not exhaustive)",
                  encodes=["cminx.main -> Documenter (real lexer, parser, error strategy, walker, renderer)"], symbolic="the concrete text is chosen by z3",
-                 bound="one witness per size class")
+                 bound="one witness per size class; one witness per character U+000B, U+000C, U+001C-1E, U+0085, U+2028, U+2029 inside a comment / inside arguments")
 
 
 # ------------------------------------------------------------------------------------------------ second opinion (other solvers)
